@@ -156,6 +156,8 @@ def union_specs(cat, dims):
         ("union-nested-cats", {"k": "union", "as": [made("Float", A, "x"), made("Int", A, "x")]}),
         ("union-nested-cats3", {"k": "union", "as": [made("Bool", A, "x"), made("Float", A, "x"), made("UInt8", A, "x"), made("Float", O, "x")]}),
         ("tvconstr-nested-cats", {"k": "tvconstr", "as": [made("Complex", A, "x"), made("Int", A, "x")]}),
+        # one member compatible with the outer category, one disjoint from it (for most outer categories)
+        ("union-nested-disjoint", {"k": "union", "as": [made("Float", A, "x"), made("Bool", A, "x"), made("Key", O, "x")]}),
         ("union-any", {"k": "union", "as": [ANY, {"k": "scalar", "s": "int"}]}),
         ("tvbound", {"k": "tvbound", "a": A}),
         ("tvbound-nested", {"k": "tvbound", "a": nested}),
@@ -184,6 +186,13 @@ def check_union_law(out, cat, tag, aty, dims):
     if isinstance(lhs, str) and lhs.startswith("INNER-"):
         return
     ok_members = [m for m in members if not isinstance(m, str)]
+    # a member that is an error OF ITS OWN (a nested annotation with no dtype in common, two multi-axis specifiers, ...)
+    # makes the right-hand side an error; only scalar types that merely "do not exist" for this category / shape drop out
+    own_errors = [a for a, m in zip(members_of(aty), members) if m == "VAL" and a.get("k") != "scalar"]
+    if own_errors and not isinstance(lhs, str):
+        out.violation(f"union:{tag}:member-error-dropped", f"{cat}[{tag}, {dims!r}] builds although the member {json.dumps(own_errors[0])[:160]} is a ValueError when written "
+                      f"as {cat}[member, {dims!r}]: Union[D[A, s], D[B, s]] is an error, D[Union[A, B], s] must be one too", replay)
+        return
     if isinstance(lhs, str):
         if lhs != "VAL":
             out.violation(f"union:{tag}:raises-{lhs}", f"building {cat}[{tag}, {dims!r}] raised {lhs} (only ValueError is documented)", replay)
